@@ -125,13 +125,13 @@ func (r rect) draw(dst backend.Canvas, attrs *attributes, _ *SVGImage, dims draw
 
 	dst.MoveTo(x+rx, y)
 	dst.LineTo(x+width-rx, y)
-	dst.CubicTo(x+width-rx+c1, y, x+width, y+c2, x+width, y+ry)
+	dst.CubicTo(x+width-rx+c1, y, x+width, y+ry-c2, x+width, y+ry)
 	dst.LineTo(x+width, y+height-ry)
 	dst.CubicTo(
 		x+width, y+height-ry+c2, x+width+c1-rx, y+height,
 		x+width-rx, y+height)
 	dst.LineTo(x+rx, y+height)
-	dst.CubicTo(x+rx-c1, y+height, x, y+height-c2, x, y+height-ry)
+	dst.CubicTo(x+rx-c1, y+height, x, y+height-ry+c2, x, y+height-ry)
 	dst.LineTo(x, y+ry)
 	dst.CubicTo(x, y+ry-c2, x+rx-c1, y, x+rx, y)
 	dst.LineTo(x+rx, y)
@@ -240,8 +240,10 @@ func (e ellipse) draw(dst backend.Canvas, _ *attributes, _ *SVGImage, dims drawi
 	if rx == 0 || ry == 0 {
 		return nil
 	}
-	ratioX := rx / math.SqrtPi
-	ratioY := ry / math.SqrtPi
+	// control distance of the best cubic approximation of a quarter of ellipse
+	const arcToBezier = 4 * (math.Sqrt2 - 1) / 3
+	ratioX := rx * arcToBezier
+	ratioY := ry * arcToBezier
 	cx, cy := dims.point(e.cx, e.cy)
 
 	dst.MoveTo(cx+rx, cy)
